@@ -976,13 +976,13 @@ static EntryTableBArray bufr_tableb_read
       count = 6;
       }
 */
-   memset( ligne, (int)' ', 256 );
+   memset( ligne, (int)' ', sizeof(ligne) );
 /**
  * on ne lit que les lignes ayant un descripteur commencant par 0
  * et ce, jusqu'au premier element local ou la fin du fichier.
  **/
    lineno = 0;
-   while ( fgets(ligne,256,fp) != NULL )
+   while ( fgets(ligne,sizeof(ligne),fp) != NULL )
       {
       ++lineno;
       if ( lineno==1 )
